@@ -271,7 +271,11 @@ fn split_type(node_type: &str) -> (&str, Option<&str>) {
 
 pub fn resolve_type<'n>(node_type: &'n str, doc: &RustDocument) -> (&'n str, Option<Rc<Namespace>>) {
     let (node_type, namespace) = split_type(node_type);
-    let namespace = namespace.and_then(|ns| doc.find_namespace_by_abbreviation(ns));
+    // an unprefixed name denotes the default namespace
+    let namespace = match namespace {
+        Some(ns) => doc.find_namespace_by_abbreviation(ns),
+        None => doc.default_namespace.as_ref(),
+    };
     (node_type, namespace.cloned())
 }
 
@@ -296,10 +300,13 @@ pub fn as_rust_type(node_type: &str, doc: &RustDocument) -> RustFieldType {
         "boolean" => RustFieldType::Bool,
         v => RustFieldType::Other(OtherRustType {
             name: as_type_name(v),
-            module: namespace.and_then(|ns| {
-                doc.find_module_name_from_namespace_reference(ns)
-                    .map(ToString::to_string)
-            }),
+            // an unprefixed name denotes the default namespace
+            module: match namespace {
+                Some(ns) => doc
+                    .find_module_name_from_namespace_reference(ns)
+                    .map(ToString::to_string),
+                None => doc.default_namespace.as_ref().map(|ns| ns.rust_mod_name.clone()),
+            },
         }),
     }
 }
